@@ -59,14 +59,16 @@ type sop struct {
 	Cols  []col    `json:"cols"`
 }
 type icmd struct {
-	Cmd string `json:"cmd"` // seek_first seek_last next prev seek_ge seek_le valid
-	Arg int64  `json:"arg"`
+	Cmd  string `json:"cmd"` // seek_first seek_last next prev next_auto prev_auto seek_ge seek_le valid set_bounds
+	Arg  int64  `json:"arg"`
+	Arg2 int64  `json:"arg2"` // set_bounds: [arg, arg2)
 }
 type iterSpec struct {
 	Chans []string `json:"chans"`
 	Bogus []uint32 `json:"bogus"`
 	Lo    int64    `json:"lo"`
 	Hi    int64    `json:"hi"` // 0 = max
+	Chunk int64    `json:"chunk"` // samples per AutoSpan step (0 = default)
 	Cmds  []icmd   `json:"cmds"`
 }
 type tcase struct {
@@ -159,6 +161,9 @@ func frameOut(keys []uint32, get func(k uint32) telem.MultiSeries) map[string][]
 	return m
 }
 
+type boundsSetter interface{ SetBounds(telem.TimeRange) }
+type boundsSetterAck interface{ SetBounds(telem.TimeRange) bool }
+
 type anyIter interface {
 	SeekFirst() bool
 	SeekLast() bool
@@ -183,12 +188,25 @@ func runCmd(it anyIter, c icmd) bool {
 		return it.SeekGE(telem.TimeStamp(c.Arg))
 	case "seek_le":
 		return it.SeekLE(telem.TimeStamp(c.Arg))
+	case "next_auto":
+		return it.Next(cesium.AutoSpan)
+	case "prev_auto":
+		return it.Prev(cesium.AutoSpan)
+	case "set_bounds":
+		tr := telem.TimeRange{Start: telem.TimeStamp(c.Arg), End: telem.TimeStamp(c.Arg2)}
+		if b, ok := it.(boundsSetterAck); ok {
+			return b.SetBounds(tr)
+		}
+		it.(boundsSetter).SetBounds(tr) // a storage iterator always acknowledges SetBounds
+		return true
 	default:
 		return it.Valid()
 	}
 }
 
-func isSeekOrValid(c string) bool { return c != "next" && c != "prev" }
+func isSeekOrValid(c string) bool {
+	return c != "next" && c != "prev" && c != "next_auto" && c != "prev_auto"
+}
 
 func bounds(sp iterSpec) telem.TimeRange {
 	tr := telem.TimeRangeMax
@@ -199,7 +217,7 @@ func bounds(sp iterSpec) telem.TimeRange {
 }
 
 func travCesium(db *cesium.DB, keys []uint32, sp iterSpec) (t travOut) {
-	it, err := db.OpenIterator(cesium.IteratorConfig{Channels: keys, Bounds: bounds(sp)})
+	it, err := db.OpenIterator(cesium.IteratorConfig{Channels: keys, Bounds: bounds(sp), AutoChunkSize: sp.Chunk})
 	if err != nil {
 		return travOut{Err: "open", Text: err.Error()}
 	}
@@ -217,7 +235,7 @@ func travCesium(db *cesium.DB, keys []uint32, sp iterSpec) (t travOut) {
 }
 
 func travCluster(nd mock.Node, keys []uint32, sp iterSpec) (t travOut) {
-	it, err := nd.Framer.OpenIterator(ctx, framer.IteratorConfig{Keys: channel.KeysFromUint32(keys), Bounds: bounds(sp)})
+	it, err := nd.Framer.OpenIterator(ctx, framer.IteratorConfig{Keys: channel.KeysFromUint32(keys), Bounds: bounds(sp), ChunkSize: sp.Chunk})
 	if err != nil {
 		return travOut{Err: classify(err), Text: err.Error()}
 	}
